@@ -39,9 +39,23 @@ pub struct Case {
 // AST generator
 
 fn cell_ref() -> impl Strategy<Value = CellRef> {
-    let row = prop_oneof![3 => 0u32..200, 1 => Just(0u32), 1 => Just(65_535u32), 1 => Just(MAX_ROW - 30), 1 => 0u32..(MAX_ROW - 30)];
-    let col = prop_oneof![3 => 0u32..30, 1 => Just(25u32), 1 => Just(26u32), 1 => Just(701u32), 1 => Just(702u32), 1 => Just(MAX_COL - 30), 1 => 0u32..(MAX_COL - 30)];
-    (row, col, any::<bool>(), any::<bool>()).prop_map(|(row, col, abs_row, abs_col)| CellRef { row, col, abs_row, abs_col })
+    // relative components keep a margin of 30 to the sheet edge so that every member's translation
+    // stays inside the sheet; absolute components never move and may sit on the last row / column
+    let row = |abs: bool| {
+        if abs {
+            prop_oneof![3 => 0u32..200, 1 => Just(0u32), 1 => Just(65_535u32), 2 => Just(MAX_ROW), 1 => Just(MAX_ROW - 1), 1 => 0u32..=MAX_ROW].boxed()
+        } else {
+            prop_oneof![3 => 0u32..200, 1 => Just(0u32), 1 => Just(65_535u32), 1 => Just(MAX_ROW - 30), 1 => 0u32..(MAX_ROW - 30)].boxed()
+        }
+    };
+    let col = |abs: bool| {
+        if abs {
+            prop_oneof![3 => 0u32..30, 1 => Just(25u32), 1 => Just(26u32), 1 => Just(701u32), 1 => Just(702u32), 2 => Just(MAX_COL), 1 => 0u32..=MAX_COL].boxed()
+        } else {
+            prop_oneof![3 => 0u32..30, 1 => Just(25u32), 1 => Just(26u32), 1 => Just(701u32), 1 => Just(702u32), 1 => Just(MAX_COL - 30), 1 => 0u32..(MAX_COL - 30)].boxed()
+        }
+    };
+    (any::<bool>(), any::<bool>()).prop_flat_map(move |(abs_row, abs_col)| (row(abs_row), col(abs_col)).prop_map(move |(row, col)| CellRef { row, col, abs_row, abs_col }))
 }
 
 fn sheet_name() -> impl Strategy<Value = Option<String>> {
@@ -63,10 +77,10 @@ fn leaf() -> impl Strategy<Value = Expr> {
     prop_oneof![
         6 => (sheet_name(), cell_ref()).prop_map(|(s, c)| Expr::Ref(s, c)),
         3 => (sheet_name(), cell_ref(), 0u32..5, 0u32..5).prop_map(|(s, a, dr, dc)| {
-            let b = CellRef { row: a.row + dr, col: a.col + dc, abs_row: a.abs_row, abs_col: a.abs_col };
+            let b = CellRef { row: (a.row + dr).min(if a.abs_row { MAX_ROW } else { MAX_ROW - 30 }), col: (a.col + dc).min(if a.abs_col { MAX_COL } else { MAX_COL - 30 }), abs_row: a.abs_row, abs_col: a.abs_col };
             Expr::Area(s, a, b)
         }),
-        1 => proptest::sample::select(vec!["Rate_2023", "Tax.Rate1", "XYZZY9", "_x1", "Total", "ABCD1", "Größe", "Données_2", "合計"]).prop_map(|s| Expr::Name(s.to_string())),
+        1 => proptest::sample::select(vec!["Rate_2023", "Tax.Rate1", "XYZZY9", "_x1", "Total", "ABCD1", "Größe", "Données_2", "合計", "Année2020", "Coût1", "Señal3"]).prop_map(|s| Expr::Name(s.to_string())),
         2 => proptest::sample::select(vec!["1", "2.5", "100", "1E5", "1.5E-3", "0.25", "3E+10"]).prop_map(|s| Expr::Num(s.to_string())),
         2 => proptest::sample::select(vec!["", "a", "A1", "see B2:C3", "x\"y", "é", "R1C1 $A$1", "it's 'B7'", "日本 C3"]).prop_map(|s| Expr::Str(s.to_string())),
         1 => any::<bool>().prop_map(Expr::Bool),
@@ -89,12 +103,15 @@ pub fn expr() -> impl Strategy<Value = Expr> {
 pub fn case_strategy() -> impl Strategy<Value = Case> {
     let origin = (proptest::sample::select(vec![0u32, 0, 5, 100, 5000]), proptest::sample::select(vec![0u32, 0, 1, 24, 700]));
     let group = (0u32..5, 0u32..6, prop_oneof![2 => (2u32..7, Just(1u32)), 2 => (Just(1u32), 2u32..7), 3 => (2u32..6, 2u32..6)], expr(), 0u32..3);
-    (origin, proptest::collection::vec(group, 1..5), proptest::collection::vec((0u32..5, 0u32..8, expr()), 0..4), proptest::collection::vec((0u32..4, 0u32..8), 0..4), enc_strategy()).prop_map(|((r0, c0), gs, ps, cs, enc)| {
+    (origin, proptest::collection::vec(group, 1..5), proptest::collection::vec((0u32..5, 0u32..8, expr()), 0..4), proptest::collection::vec((0u32..4, 0u32..8), 0..4), enc_strategy(), any::<bool>()).prop_map(|((r0, c0), gs, ps, cs, enc, side_by_side)| {
         let mut si = 0;
         let mut groups = vec![];
         for (k, (jr, jc, (h, w), ast, gap)) in gs.into_iter().enumerate() {
             si += gap;
-            groups.push(Group { si, at: (r0 + k as u32 * 40 + jr, c0 + jc), h, w, ast });
+            // either one group per 40-row band, or all groups next to each other in the first band
+            // (12 columns apart) so that groups of different extents share rows
+            let at = if side_by_side { (r0 + jr, c0 + k as u32 * 12 + jc) } else { (r0 + k as u32 * 40 + jr, c0 + jc) };
+            groups.push(Group { si, at, h, w, ast });
             si += 1;
         }
         // ordinary formulas and constants live in the lower part of each 40-row band
